@@ -7,17 +7,17 @@ EXTENDS Naturals, Integers, Sequences, TLC, AvroLogical
 CONSTANTS FromOff, ToOff        \* offsets from 0001-01-01 (configuration files cannot hold negative numbers)
 FromDay == MinDay + FromOff
 ToDay == MinDay + ToOff
-VARIABLE d
-Init == d \in FromDay..ToDay
-Next == UNCHANGED d
+VARIABLE dayv
+Init == dayv \in FromDay..ToDay
+Next == UNCHANGED dayv
 
-c == CivilFromDays(d)
-InvInverse == DaysFromCivil(c.y, c.mo, c.d) = d
+c == CivilFromDays(dayv)
+InvInverse == DaysFromCivil(c.y, c.mo, c.d) = dayv
 InvValid == c.mo \in 1..12 /\ c.d \in 1..DaysInMonth(c.y, c.mo) /\ c.y \in 1..9999
-InvSuccessor == d < ToDay => LET n == CivilFromDays(d + 1) IN
+InvSuccessor == dayv < ToDay => LET n == CivilFromDays(dayv + 1) IN
                   IF c.d < DaysInMonth(c.y, c.mo) THEN n = [y |-> c.y, mo |-> c.mo, d |-> c.d + 1]
                   ELSE IF c.mo < 12 THEN n = [y |-> c.y, mo |-> c.mo + 1, d |-> 1]
                   ELSE n = [y |-> c.y + 1, mo |-> 1, d |-> 1]
-InvTwos == LET x == IFromInt(d) IN FromTwosBE(TwosBE(x, MinTwosLen(x))) = x /\ FromTwosBE(TwosBE(x, 4)) = x
+InvTwos == LET x == IFromInt(dayv) IN FromTwosBE(TwosBE(x, MinTwosLen(x))) = x /\ FromTwosBE(TwosBE(x, 4)) = x
 InvEpoch == DaysFromCivil(1970, 1, 1) = 0 /\ MinDay = 0 - 719162 /\ MaxDay = 2932896
 =============================================================================
